@@ -15,7 +15,7 @@ PROPS['C04'] = dict(
     assumptions=['invariants are evaluated only between API calls (quiescent points), never mid-update'],
     stages=[
         dict(name='random', variant='asan', harness='c04_voices.cpp', quick=3000, thorough=60000, opts=dict(mode='c04')),
-        dict(name='pressure', variant='asan', harness='c04_voices.cpp', quick=8000, thorough=160000, opts=dict(mode='c04', pressure=1), **{'as': 'random'}),
+        dict(name='pressure', variant='asan', harness='c04_voices.cpp', quick=8000, thorough=60000, opts=dict(mode='c04', pressure=1), **{'as': 'random'}),
         dict(name='exhaustive-d4', variant='asan', harness='c04_voices.cpp', quick=160000, thorough=160000, opts=dict(mode='c04', depth=4)),
         dict(name='exhaustive-d5', variant='asan', harness='c04_voices.cpp', quick=0, thorough=3200000, opts=dict(mode='c04', depth=5)),
         dict(name='memcheck', variant='plain-d', harness='c04_voices.cpp', quick=300, thorough=3000, budget=150, wall=2400, opts=dict(mode='c04'), **{'as': 'random'},
@@ -56,9 +56,9 @@ PROPS['C06'] = dict(
     floor=60,
     assumptions=['time is advanced with opn2_generate at 8 kHz on the GENS/MAME cores: only the age counters matter'],
     stages=[
-        dict(name='random', variant='asan', harness='c04_voices.cpp', quick=8000, thorough=100000, opts=dict(mode='c06', maxops=300), budget=60),
+        dict(name='random', variant='asan', harness='c04_voices.cpp', quick=8000, thorough=60000, opts=dict(mode='c06', maxops=300), budget=60),
         dict(name='longhold', variant='plain', harness='c04_voices.cpp', quick=480, thorough=4800, opts=dict(mode='c06', longhold=1), budget=300, **{'as': 'random'}),
-        dict(name='pressure', variant='asan', harness='c04_voices.cpp', quick=15000, thorough=200000, opts=dict(mode='c06', maxops=300, pressure=1), budget=60, **{'as': 'random'}),
+        dict(name='pressure', variant='asan', harness='c04_voices.cpp', quick=15000, thorough=80000, opts=dict(mode='c06', maxops=300, pressure=1), budget=60, **{'as': 'random'}),
         dict(name='ports', variant='asan', harness='c04_voices.cpp', quick=4000, thorough=60000, opts=dict(mode='c06', ports=1), budget=60, **{'as': 'random'}),
     ],
 )
